@@ -194,10 +194,11 @@ fn cmd_replay(args: &Args) -> i32 {
             let cfg = w1_cfg(&a, prop);
             // a failure that depends on the allocator's placement may need a few fresh processes
             // (each has its own address-space layout): up to 6 attempts, the first hit counts
-            let mut res = runner::rerun_group(&cfg, gid);
+            let mut res = runner::rerun_group(&cfg, gid, false);
             let mut attempts = 1;
-            while attempts < 6 && matches!(&res, Ok(found) if !found.iter().any(|x| x.run == f.run && x.violation.signature() == f.signature)) {
-                res = runner::rerun_group(&cfg, gid);
+            while attempts < 5 && matches!(&res, Ok(found) if !found.iter().any(|x| x.run == f.run && x.violation.signature() == f.signature)) {
+                // attempts 3-5: with everything the group's shard process executed before it
+                res = runner::rerun_group(&cfg, gid, attempts >= 2);
                 attempts += 1;
             }
             match res {
@@ -479,7 +480,7 @@ fn cmd_w1(args: &Args) -> i32 {
             // differently. Re-execute the run's whole group the way the batch did, from the seed.
             let gid = f.run / cfg.runs_per_fork.max(1);
             let mut body = vec![
-                format!("cfg tier={} runs={} runs_per_fork={} sys_variants={}", cfg.tier, cfg.runs, cfg.runs_per_fork, cfg.sys_variants),
+                format!("cfg tier={} runs={} runs_per_fork={} sys_variants={} workers={}", cfg.tier, cfg.runs, cfg.runs_per_fork, cfg.sys_variants, cfg.workers),
                 format!("group {}", gid),
                 format!("failing_run {}", f.run),
             ];
